@@ -2016,6 +2016,268 @@ theorem c14_send_to_all_compact_shifts :
     (sendToAll false send () [0, 1, 2]).2.1 = [some 0, none, some 2] ∧
     (sendToAll false send () [0, 1, 2]).2.2 = 1 := by decide
 
+
+/-! ### whom a parallel request asks (`ParallelOptions.GetList`), and nobody to ask -/
+
+/-- **the numbers of `GetList`**: for every roster with at least one node and every content of the options
+(negative and oversized numbers included): at least one routine is started and at most as many as nodes
+are asked; at least one and at most `len` nodes are asked; the start lies inside the roster.
+(`po.Parallel >= 0` instead of `> 0` would start no routine for the default options: the caller waits for
+ever; `po.StartNode <= len` would index past the roster.) -/
+theorem c14_getlist_numbers (len : Int) (po : Option ParOpts) (h : 1 ≤ len) :
+    let ps := getListParams len po
+    1 ≤ ps.parallel ∧ ps.parallel ≤ ps.askNodes ∧ ps.askNodes ≤ len ∧ 0 ≤ ps.startNode ∧ ps.startNode < len ∧
+    ps.parallel ≤ (len + 1) / 2 := by
+  cases po with
+  | none => simp only [getListParams]; omega
+  | some o =>
+    simp only [getListParams]
+    split <;> split <;> split <;> split <;> omega
+
+/-- the loop collects the first `ask` nodes, in walking order, that are not ignored -/
+theorem collect_eq (nodes ignore : List Nat) (start ask : Nat) :
+    ∀ (perm acc : List Nat), acc.length < ask →
+      collect nodes ignore start ask perm acc =
+        (acc ++ (perm.map (fun p => nodes.getD ((start + p) % nodes.length) 0)).filter (fun n => !ignore.contains n)).take ask := by
+  intro perm
+  induction perm with
+  | nil => intro acc h; simp [collect, List.take_of_length_le (Nat.le_of_lt h)]
+  | cons p ps ih =>
+    intro acc h
+    simp only [collect, List.map_cons, List.filter_cons]
+    by_cases hi : ignore.contains (nodes.getD ((start + p) % nodes.length) 0) = true
+    · simp only [hi, if_true, Bool.not_true, Bool.false_eq_true, if_false]
+      rw [if_neg (by omega)]
+      exact ih acc h
+    · simp only [hi, if_false, Bool.not_false, if_true, Bool.false_eq_true]
+      by_cases hl : (acc ++ [nodes.getD ((start + p) % nodes.length) 0]).length = ask
+      · rw [if_pos hl]
+        rw [show acc ++ nodes.getD ((start + p) % nodes.length) 0 :: List.filter (fun n => !ignore.contains n)
+              (List.map (fun p => nodes.getD ((start + p) % nodes.length) 0) ps) =
+            (acc ++ [nodes.getD ((start + p) % nodes.length) 0]) ++ List.filter (fun n => !ignore.contains n)
+              (List.map (fun p => nodes.getD ((start + p) % nodes.length) 0) ps) by simp]
+        exact (List.take_left' hl).symm
+      · rw [if_neg hl]
+        have : (acc ++ [nodes.getD ((start + p) % nodes.length) 0]).length < ask := by
+          simp at hl ⊢; omega
+        rw [ih _ this]; simp
+
+theorem getD_inj_of_nodup {nodes : List Nat} (hn : nodes.Nodup) {i j : Nat} (hi : i < nodes.length)
+    (hj : j < nodes.length) (h : nodes.getD i 0 = nodes.getD j 0) : i = j := by
+  have hp := List.pairwise_iff_getElem.mp hn
+  simp only [List.getD_eq_getElem?_getD, List.getElem?_eq_getElem hi, List.getElem?_eq_getElem hj, Option.getD_some] at h
+  rcases Nat.lt_trichotomy i j with hlt | heq | hgt
+  · exact absurd h (hp i j hi hj hlt)
+  · exact heq
+  · exact absurd h.symm (hp j i hj hi hgt)
+
+theorem walk_inj {len start p q : Nat} (hp : p < len) (hq : q < len)
+    (h : (start + p) % len = (start + q) % len) : p = q := by
+  rcases Nat.le_total p q with hle | hle
+  · have := Nat.sub_mod_eq_zero_of_mod_eq h.symm
+    have h2 : start + q - (start + p) = q - p := by omega
+    rw [h2, Nat.mod_eq_of_lt (by omega)] at this; omega
+  · have := Nat.sub_mod_eq_zero_of_mod_eq h
+    have h2 : start + p - (start + q) = p - q := by omega
+    rw [h2, Nat.mod_eq_of_lt (by omega)] at this; omega
+
+/-- walking a roster without duplicates along a permutation visits no node twice -/
+theorem walk_nodup {nodes perm : List Nat} (start : Nat) (hn : nodes.Nodup) (hp : perm.Nodup)
+    (hl : ∀ p ∈ perm, p < nodes.length) :
+    (perm.map (fun p => nodes.getD ((start + p) % nodes.length) 0)).Nodup := by
+  refine List.pairwise_map.mpr (List.Pairwise.imp_of_mem ?_ hp)
+  intro a b ha hb hne heq
+  have hla := hl a ha
+  have hlb := hl b hb
+  have hpos : 0 < nodes.length := by omega
+  exact hne (walk_inj hla hlb (getD_inj_of_nodup hn (Nat.mod_lt _ hpos) (Nat.mod_lt _ hpos) heq))
+
+theorem permOf_ok (len : Nat) (po : Option ParOpts) (rp : List Nat) (hp : rp.Nodup) (hl : ∀ p ∈ rp, p < len) :
+    (permOf len po rp).Nodup ∧ ∀ p ∈ permOf len po rp, p < len := by
+  unfold permOf
+  cases po with
+  | none => exact ⟨hp, hl⟩
+  | some o =>
+    simp only
+    split
+    · exact ⟨List.nodup_range, fun p hp => List.mem_range.mp hp⟩
+    · exact ⟨hp, hl⟩
+
+def ignoreOf : Option ParOpts → List Nat
+  | some o => o.ignore
+  | none => []
+
+/-- **whom `GetList` puts into the channel**: for every roster without duplicate nodes, every content of the
+options and every permutation `rand.Perm` may draw — no node twice, only nodes of the roster, no ignored
+node, at most `askNodes` of them (so the channel of that capacity never blocks the caller), and whenever
+somebody is asked a routine is started to ask.  (Walking with `perm[i]` but without `% len`, or comparing
+the ignored nodes by pointer, falsify it.) -/
+theorem c14_getlist_asked (nodes : List Nat) (po : Option ParOpts) (rp : List Nat) (hn : nodes.Nodup)
+    (hp : rp.Nodup) (hl : ∀ p ∈ rp, p < nodes.length) :
+    let r := getList nodes po rp
+    r.2.Nodup ∧ (∀ n ∈ r.2, n ∈ nodes ∧ n ∉ ignoreOf po) ∧
+    ((r.2.length : Int) ≤ (getListParams nodes.length po).askNodes ∨ nodes = []) ∧
+    (r.2 ≠ [] → 1 ≤ r.1) := by
+  intro r
+  by_cases hne : nodes = []
+  · subst hne
+    have : rp = [] := by
+      cases rp with
+      | nil => rfl
+      | cons p ps => exact absurd (hl p (List.mem_cons_self)) (by simp)
+    subst this
+    have hr : r.2 = [] := by
+      cases po with
+      | none => rfl
+      | some o => simp [r, getList, permOf, collect]
+    simp [hr]
+  · have hlen : 1 ≤ (nodes.length : Int) := by
+      have : 0 < nodes.length := List.length_pos_iff.mpr hne
+      omega
+    obtain ⟨h1, h2, h3, h4, h5, _⟩ := c14_getlist_numbers nodes.length po hlen
+    obtain ⟨hpn, hpl⟩ := permOf_ok nodes.length po rp hp hl
+    have hask : 0 < (getListParams nodes.length po).askNodes.toNat := by omega
+    have hr : r.2 = (((permOf nodes.length po rp).map (fun p => nodes.getD (((getListParams nodes.length po).startNode.toNat + p) % nodes.length) 0)).filter
+        (fun n => !(ignoreOf po).contains n)).take (getListParams nodes.length po).askNodes.toNat := by
+      have := collect_eq nodes (ignoreOf po) (getListParams nodes.length po).startNode.toNat
+        (getListParams nodes.length po).askNodes.toNat (permOf nodes.length po rp) [] (by simpa using hask)
+      simp only [List.nil_append] at this
+      rw [← this]
+      cases po <;> rfl
+    have hwn := walk_nodup (getListParams nodes.length po).startNode.toNat hn hpn hpl
+    refine ⟨?_, ?_, ?_, ?_⟩
+    · rw [hr]
+      exact List.Nodup.sublist (List.take_sublist _ _) (List.Nodup.sublist List.filter_sublist hwn)
+    · intro n hnr
+      rw [hr] at hnr
+      have hf := List.mem_of_mem_take hnr
+      rw [List.mem_filter] at hf
+      obtain ⟨hm, hi⟩ := hf
+      rw [List.mem_map] at hm
+      obtain ⟨p, hpm, rfl⟩ := hm
+      have hpos : 0 < nodes.length := List.length_pos_iff.mpr hne
+      refine ⟨?_, by simpa using hi⟩
+      rw [List.getD_eq_getElem?_getD, List.getElem?_eq_getElem (Nat.mod_lt _ hpos)]
+      exact List.getElem_mem _
+    · left
+      rw [hr, List.length_take]
+      omega
+    · intro _; exact h1
+
+/-- non-vacuity, and the options at work: six nodes, start at 2, node 4 ignored, two asked, in roster order -/
+example : getList [10, 11, 12, 13, 14, 15] (some { startNode := 2, askNodes := 3, parallel := 2, ignore := [14], dontShuffle := true }) [] =
+    (2, [12, 13, 15]) := by decide
+
+example : getList [10, 11, 12] none [2, 0, 1] = (2, [12, 10, 11]) := by decide
+
+/-- what the bounds exclude: `po.Parallel >= 0` in place of `> 0` starts no routine for options that leave
+`Parallel` at its zero value — nobody ever asks the three nodes in the channel -/
+theorem c14_getlist_zero_parallel_variant_starts_nobody :
+    let parallel0 : Int := ((3 : Int) + 1) / 2
+    let o : ParOpts := {}
+    (if o.parallel ≥ 0 ∧ o.parallel < parallel0 then o.parallel else parallel0) = 0 ∧
+    (getList [10, 11, 12] (some o) [0, 1, 2]) = (2, [10, 11, 12]) := by decide
+
+/-- **nobody to ask is an error, not a crash**: for every roster, options and permutation, when `GetList`
+leaves the channel empty (no node given, every node ignored) the call ends with an error value before any
+routine is started; otherwise the routines are started (`Par`, `c14_parallel_pair_with_failures`). The
+code before 2f7be2f evaluated `errs[0]` of the empty list: the calling process ended. -/
+theorem c14_parallel_nobody_to_ask_is_an_error (nodes : List Nat) (po : Option ParOpts) (rp : List Nat) :
+    let asked := (getList nodes po rp).2
+    (asked = [] → nobodyToAsk true asked = some .error) ∧
+    (asked ≠ [] → nobodyToAsk true asked = none) ∧
+    nobodyToAsk true asked ≠ some .crash := by
+  intro asked
+  unfold nobodyToAsk
+  refine ⟨fun h => by simp [h], fun h => ?_, ?_⟩
+  · have : asked.length ≠ 0 := fun hl => h (List.eq_nil_of_length_eq_zero hl)
+    simp [this]
+  · split <;> simp
+
+/-- the witnesses of the probe: every node ignored; no node given -/
+theorem c14_parallel_nobody_to_ask_crashed_before :
+    nobodyToAsk false (getList [10, 11, 12] (some { ignore := [12, 10, 11] }) [1, 2, 0]).2 = some .crash ∧
+    nobodyToAsk false (getList [] none []).2 = some .crash ∧
+    nobodyToAsk true (getList [10, 11, 12] (some { ignore := [12, 10, 11] }) [1, 2, 0]).2 = some .error ∧
+    nobodyToAsk true (getList [] none []).2 = some .error := by decide
+
+/-! ### which connection a request travels on (any number of destinations) -/
+
+/-- every stored connection is stored under the key of the destination it was dialed for -/
+def MCl.Keyed {K D : Type} (key : D → K) (c : MCl K D) : Prop := ∀ e ∈ c.conns, e.1 = key e.2
+
+theorem MCl.find_keyed {K D : Type} [DecidableEq K] {key : D → K} {c : MCl K D} (h : c.Keyed key)
+    {k : K} {d : D} (hf : c.find k = some d) : key d = k := by
+  unfold MCl.find at hf
+  cases hfe : c.conns.find? (fun e => e.1 = k) with
+  | none => simp [hfe] at hf
+  | some e =>
+    simp only [hfe, Option.map_some, Option.some.injEq] at hf
+    have hm := List.mem_of_find?_eq_some hfe
+    have hk := List.find?_some hfe
+    simp only [decide_eq_true_eq] at hk
+    rw [← hf, ← h e hm, hk]
+
+theorem mSend_keyed {K D : Type} [DecidableEq K] (key : D → K) (keep : Bool) (c : MCl K D) (d : D) (ok : Bool)
+    (h : c.Keyed key) : (mSend key keep c d ok).1.Keyed key := by
+  have h1 : (match c.find (key d) with | some _ => c | none => (⟨(key d, d) :: c.conns⟩ : MCl K D)).Keyed key := by
+    cases c.find (key d) with
+    | some _ => exact h
+    | none =>
+      intro e he
+      simp only [List.mem_cons] at he
+      rcases he with rfl | he
+      · rfl
+      · exact h e he
+  unfold mSend
+  simp only
+  split
+  · exact h1
+  · intro e he
+    simp only [MCl.drop, List.mem_filter] at he
+    exact h1 e he.1
+
+/-- **a reply comes from the server and handler the request was meant for**: when different destinations
+have different keys (the code: the key *is* the destination — identity pointer and path), then for every
+sequence of `Send`s to any destinations, answered or failing, kept or single-use, every reply handed to
+a caller was produced by the destination that caller named. -/
+theorem c14_connection_table_reply_from_asked_destination {K D : Type} [DecidableEq K] (key : D → K)
+    (hinj : ∀ a b, key a = key b → a = b) (keep : Bool) :
+    ∀ (sends : List (D × Bool)) (c : MCl K D), c.Keyed key →
+      ∀ r ∈ mRun key keep c sends, r.2 = none ∨ r.2 = some r.1 := by
+  intro sends
+  induction sends with
+  | nil => intro c _ r hr; simp [mRun] at hr
+  | cons s rest ih =>
+    intro c hc r hr
+    obtain ⟨d, ok⟩ := s
+    simp only [mRun, List.mem_cons] at hr
+    rcases hr with rfl | hr
+    · simp only [mSend]
+      cases ok with
+      | false => left; rfl
+      | true =>
+        right
+        simp only [if_true]
+        cases hf : c.find (key d) with
+        | none => rfl
+        | some d' => simp only; rw [hinj _ _ (MCl.find_keyed hc hf)]
+    · exact ih _ (mSend_keyed key keep c d ok hc) r hr
+
+/-- non-vacuity: a kept client, three destinations, one failure in between: everybody answered by whom he
+asked, and the failed destination is dialed again -/
+example : mRun (K := Nat) (D := Nat) id true {} [(0, true), (1, true), (0, false), (0, true), (2, true), (1, true)] =
+    [(0, some 0), (1, some 1), (0, none), (0, some 0), (2, some 2), (1, some 1)] := by decide
+
+/-- **the key must tell destinations apart** (seed C14r5-A: connections kept under the identity's deprecated
+`ID`, which literal identities leave empty): two servers whose identities share the key — the request for
+the second travels on the connection to the first and is answered by the first.  A single-use client
+hides it (every request dials). -/
+theorem c14_connection_table_shared_key_asks_wrong_server :
+    mRun (K := Nat) (D := Nat) (fun _ => 0) true {} [(0, true), (1, true)] = [(0, some 0), (1, some 0)] ∧
+    mRun (K := Nat) (D := Nat) (fun _ => 0) false {} [(0, true), (1, true)] = [(0, some 0), (1, some 1)] ∧
+    mRun (K := Nat) (D := Nat) id true {} [(0, true), (1, true)] = [(0, some 0), (1, some 1)] := by decide
+
 /-! ### the code regions the model stands for
 Regenerated from /repo's source on every run (`harness/cmd/astfacts` → `OnetVerif/Shapes.lean`): the
 calls that matter for synchronisation and data flow, the lock regions and (for decision logic) the
